@@ -92,6 +92,12 @@ pub fn on_server_message(sim: &mut Sim, c: usize, ch: usize, bytes: &[u8], id: u
         let first_check = {
             let sess = sim.clients[c].sess.as_mut().unwrap();
             for (k, v) in taints {
+                if v == u32::MAX {
+                    // A re-send that left before this identity change cannot be relied on to repair it.
+                    for list in sess.heal_pending.values_mut() {
+                        list.retain(|x| *x != k);
+                    }
+                }
                 sess.ent_taint.insert(k, v);
             }
             for (e, comps) in &msg.changes {
